@@ -1923,7 +1923,10 @@ fn lc_case(ctx: &mut Ctx, i: usize) {
         2 => -Fr::one(),
         _ => Fr::rand(rng),
     };
-    let nlc = range(&mut rng, 1, 3);
+    // every fourth case: at least two combinations and two point labels, met in an order that is not
+    // the sorted one (the first combination is queried only under the last point label)
+    let crossed = i % 4 == 0;
+    let nlc = if crossed { range(&mut rng, 2, 3) } else { range(&mut rng, 1, 3) };
     let mut lcs: Vec<LinComb> = vec![];
     for j in 0..nlc {
         let mut lc = LinearCombination::empty(format!("lc{}", j));
@@ -1960,13 +1963,20 @@ fn lc_case(ctx: &mut Ctx, i: usize) {
     // the query set over the combination labels: 1..3 point labels, possibly sharing a point value
     let mut qs: QSet = QSet::new();
     let mut ev: EvalMap = EvalMap::new();
-    let nl = range(&mut rng, 1, 3);
+    let nl = if crossed { range(&mut rng, 2, 3) } else { range(&mut rng, 1, 3) };
     let mut pts: Vec<Vec<Fr>> = vec![];
     for l in 0..nl {
         let pt: Vec<Fr> = if l > 0 && coin(&mut rng) { pts[0].clone() } else { (0..nv).map(|_| Fr::rand(&mut rng)).collect() };
         pts.push(pt.clone());
         for (k, lc) in lcs.iter().enumerate() {
-            if coin(&mut rng) || (l == 0 && k == 0) {
+            let want = if crossed && k == 0 {
+                l == nl - 1
+            } else if crossed && k == lcs.len() - 1 && l == 0 {
+                true
+            } else {
+                coin(&mut rng) || (l == nl - 1 && k == lcs.len() - 1)
+            };
+            if want {
                 qs.insert((lc.label().clone(), (format!("pt{}", l), pt.clone())));
                 ev.insert((lc.label().clone(), pt.clone()), lc_value(lc, &env.polys, &pt));
             }
